@@ -544,3 +544,101 @@ def replay_updaters(rec):
             return {"reproduced": True, "input": {"table": table, "name": name, "r": r},
                     "observed": "%s: %s" % (type(e).__name__, e)}
     return {"reproduced": False, "note": "seed updates agree across 3 interpreter processes; table semantics hold on 300 random cases"}
+
+
+# ------------------------------------------------------------------ C18 input parameters
+def parameters_search(rounds=1500, seed=0):
+    from pydsol.core.parameters import (InputParameterInt, InputParameterFloat, InputParameterStr, InputParameterBool,
+                                        InputParameterSelectionList, InputParameterMap)
+    from pydsol.core.model import DSOLModel
+    from pydsol.core.simulator import DEVSSimulatorFloat
+    rng = random.Random(seed)
+    cands = [0, 1, -3, 7, 50, 2.5, -0.5, 1e9, "a", "b", "zz", True, False, None, [1]]
+
+    def mk(kind, key, ro, parent=None):
+        if kind == "int":
+            return InputParameterInt(key, key, 5, rng.choice([1, 2, 2, 3]), min_value=0, max_value=10, read_only=ro, parent=parent), \
+                (lambda v: isinstance(v, int) and 0 <= v <= 10)
+        if kind == "float":
+            return InputParameterFloat(key, key, 1.5, rng.choice([1, 2, 2, 3]), min_value=-1.0, max_value=3.0, read_only=ro, parent=parent), \
+                (lambda v: isinstance(v, (int, float)) and -1.0 <= v <= 3.0)
+        if kind == "str":
+            return InputParameterStr(key, key, "x", rng.choice([1, 2, 2, 3]), read_only=ro, parent=parent), (lambda v: isinstance(v, str))
+        if kind == "bool":
+            return InputParameterBool(key, key, True, rng.choice([1, 2, 2, 3]), read_only=ro, parent=parent), (lambda v: isinstance(v, bool))
+        return InputParameterSelectionList(key, key, ["a", "b"], "a", rng.choice([1, 2, 2, 3]), read_only=ro, parent=parent), \
+            (lambda v: isinstance(v, str) and v in ("a", "b"))
+
+    class M(DSOLModel):
+        def construct_model(self):
+            pass
+    sim = DEVSSimulatorFloat("replay")
+    for r in range(rounds):
+        kind = rng.choice(["int", "float", "str", "bool", "sel"])
+        ro = rng.random() < 0.3
+        p, valid = mk(kind, "p", ro)
+        default = p.default_value
+        cur = p.value
+        hist = []
+        for _ in range(rng.randrange(1, 6)):
+            v = rng.choice(cands)
+            hist.append(v)
+            try:
+                p.set_value(v)
+                accepted = True
+            except (TypeError, ValueError):
+                accepted = False
+            except Exception as e:
+                return {"class": kind, "read_only": ro, "attempts": hist, "failure": "%s: %s" % (type(e).__name__, e)}
+            exp = (not ro) and valid(v)
+            if accepted != exp:
+                return {"class": kind, "read_only": ro, "attempts": hist,
+                        "failure": "set_value(%r) %s, declared rule says %s" % (v, "accepted" if accepted else "refused", "accept" if exp else "refuse")}
+            if accepted:
+                cur = v
+            if p.value is not cur and p.value != cur:
+                return {"class": kind, "read_only": ro, "attempts": hist, "failure": "value %r after attempt, expected %r" % (p.value, cur)}
+            if p.default_value is not default and p.default_value != default:
+                return {"class": kind, "attempts": hist, "failure": "default value changed"}
+        # model level: set through the model then get
+        m = M(sim)
+        kinds = [rng.choice(["int", "float", "str", "bool", "sel"]) for _ in range(rng.randrange(1, 5))]
+        specs = {}
+        order = []
+        for i, k2 in enumerate(kinds):
+            q, vq = mk(k2, "k%d" % i, False)
+            m.add_parameter(q)
+            specs["k%d" % i] = (q, vq)
+            order.append((q.display_priority, i, "k%d" % i))
+        listed = list(m.input_parameters.value.keys())
+        if listed != [k for _, _, k in sorted(order)]:
+            return {"failure": "children listed %s, expected priority order with ties in insertion order %s"
+                    % (listed, [k for _, _, k in sorted(order)]), "priorities": order}
+        try:
+            m.add_parameter(mk("int", "k0", False)[0])
+            return {"failure": "duplicate key k0 accepted"}
+        except ValueError:
+            pass
+        for key, (q, vq) in specs.items():
+            v = rng.choice(cands)
+            if not vq(v):
+                continue
+            try:
+                m.set_parameter(key, v)
+                got = m.get_parameter(key)
+            except Exception as e:
+                return {"model_key": key, "value": repr(v), "failure": "set_parameter/get_parameter raised %s: %s" % (type(e).__name__, e)}
+            if got is not v and got != v:
+                return {"model_key": key, "value": repr(v), "failure": "get_parameter returned %r" % (got,)}
+            if m.input_parameters.get(q.extended_key()[len("root."):]) is not q:
+                return {"failure": "parameter not retrievable by its extended key %s" % q.extended_key()}
+    return None
+
+
+@replayer(r"(InputParameter\w*|DSOLModel)\.(set_value|__init__|add|get|remove|set_parameter|get_parameter|add_parameter)")
+def replay_parameters(rec):
+    for seed in range(2):
+        f = parameters_search(seed=seed)
+        if f:
+            return {"reproduced": True, "input": f, "observed": f["failure"]}
+    return {"reproduced": False, "note": "no failing parameter history found (3000 random histories)"}
